@@ -264,7 +264,12 @@ func (t *Thread) end(args []Value, err error, exception interface{}) {
 	close(t.resumeCh)
 	t.status = ThreadDead
 	t.caller = nil
-	err = t.cleanupCloseStack(nil, 0, err) // TODO: not nil
+	if exception == nil {
+		err = t.cleanupCloseStack(nil, 0, err) // TODO: not nil
+	}
+	// Otherwise the thread ends because its runtime context was terminated:
+	// its pending to-be-closed variables are discarded like CallContext does,
+	// no Lua code may run in a terminated context.
 	t.closeErr = err
 	// Release the goroutine's stack allowance before handing control back: after
 	// the hand-off the caller is running and this goroutine must not touch the
